@@ -154,9 +154,9 @@ CLAIMED = {
              'template endpoints plus each remaining variable once at lag 0; metadata and variable types are those of the '
              'variable / template (VarConsistent); the result again satisfies the hypotheses with the same templates and '
              'variables and applying the operation again gives the same nodes and typed edges; is_minimal_graph is the '
-             'transcribed equality test. Open (kept as statements): idempotence as equality of full states incl. attributes; '
-             'the matrix view belongs to C08 (lagged entry law).',
-        note=_COMMON_NOTE + 'partial: minimal_idem as state equality and "is_minimal_graph(minimal graph) = true" are stated, not yet proved.'),
+             'transcribed equality test. Idempotence is proved as equality of full states (minimal_idem) and is_minimal_graph holds of '
+             'every minimal graph. The matrix view is covered by C08 (lagged entry law).',
+        note=_COMMON_NOTE),
     'C15': dict(
         technique='Lean 4 proof (the four extension loops folded into a pure insertion model and characterised against the '
                   'unrolling of the template set over the window) with differential correspondence over all (b, f, iap) combinations',
@@ -166,8 +166,19 @@ CLAIMED = {
              'of the extension range (with the cut-off when include_all_parents is False), its nodes exactly every variable at '
              'every lag of the window plus copy endpoints, and the result again satisfies the hypotheses; negative steps raise '
              'AssertionError. Corollaries (parents shift-invariant, minimal graph preserved, monotone in the window, acyclic '
-             'extension, attributes) are being added; those not yet audited are listed as partial in the evidence.',
-        note=_COMMON_NOTE + 'partial until the corollaries land: only the central theorem and extend_negative are audited.'),
+             'extension via the potential argument, attributes under VarConsistent) are proved as well.',
+        note=_COMMON_NOTE),
+    'C16': dict(
+        technique='Lean 4 proof (stationary graph = completion of the template set over the graph\'s own window, derived from the '
+                  'C14 and C15 theorems; test = modelled __eq__ with the completion, DAG required) with differential correspondence',
+        text='Theorems under WF + canonical names + consistent templates + latest lag 0: get_stationary_graph never raises (IndexError '
+             'only on the graph without nodes), contains every node and edge of the input, spans the same lag window with every '
+             'variable at every lag, contains exactly the template copies that fit in the window, is itself stationary, is the '
+             'least stationary super-graph over that window, and applying it again gives an equal graph; is_stationary_graph is '
+             'false for every non-DAG and true iff the graph is a DAG and nothing is missing (every variable at every lag, every '
+             'fitting copy). The temporary equality of the model is proved equal to the modelled __eq__ (C07). Open: idempotence '
+             'as equality of full states incl. attributes (stationary_idem_statement).',
+        note=_COMMON_NOTE + 'windows with a positive latest lag are outside the property (the code widens the window there).'),
     'C17': dict(
         technique='Lean 4 proof (collapse loop invariant over the sorted edge list: total on every time-series DAG, nodes = '
                   'variables, edge cases characterised) with differential correspondence on lagged DAGs with forced feedback',
@@ -210,7 +221,7 @@ CLAIMED = {
 _P = 'check under construction in this round (model/lane/theorems not yet integrated); not claimed until its central theorem is proved and its lane is clean'
 _P2 = ('model (lean/CG/Model/TS.lean) and lane exist and are clean (./check runs), but the property theorems are still being '
        'proved; not claimed until the central theorem is proved')
-NOT_CLAIMED = {k: _P2 for k in ['C16']}
+NOT_CLAIMED = {}
 
 try:
     import subprocess
